@@ -182,6 +182,7 @@ class PythonCodeGenerator(CodeGenerator):
         super().__init__(ode, *args, **kwargs)
 
         self._printer = GotranPythonCodePrinter()
+        self._check_renamed_names()
 
         setattr(self, "_formatter", get_formatter(format=format))
 
